@@ -95,7 +95,13 @@ class BaseTestServer(ABC, Generic[_Request]):
             return
         self._ssl = kwargs.pop("ssl", None)
         self.runner = await self._make_runner(handler_cancellation=True, **kwargs)
-        await self.runner.setup()
+        try:
+            await self.runner.setup()
+        except BaseException:
+            # Exit the cleanup contexts entered before the failing startup step.
+            await self.runner.cleanup()
+            self.runner = None
+            raise
         absolute_host = self.host
         try:
             version = ipaddress.ip_address(self.host).version
